@@ -1408,3 +1408,534 @@ async fn inbound_replay() {
     }
     out.flush().unwrap();
 }
+
+// ------------------------------------------------------------------------------------------------
+// C16 (negotiation half): cases of spec/Negotiate/Negotiate.tla on the real PeerFsm (SessionNegotiated codec,
+// effective send-max) and the real PeerSession::negotiate_gr / negotiate_llgr, from BOTH ends.
+//
+// Input (VERIF_IN, must end ".neg.in"), one case per line:
+//   fam  <mpL> <apL> <enhL> <mpR> <apR> <enhR>      lists "a,b" / "-" ; ap "fam:mode;fam:mode" / "-"
+//   scal <as4L> <extL> <as4R> <extR>
+//   gr   <onL> <nL> <timeL> <famsL> <onR> <nR> <timeR> <famsR>
+//   llgr <onL> <t4L> <tvL> <onR> <t4R> <tvR>           (99999 = family absent)
+
+fn neg_fam(s: &str) -> Family {
+    match s {
+        "ipv4" => Family::IPV4,
+        "ipv4vpn" => Family::IPV4_VPN,
+        x => panic!("harness: family {x}"),
+    }
+}
+
+fn neg_list(s: &str) -> Vec<Family> {
+    if s == "-" { vec![] } else { s.split(',').map(neg_fam).collect() }
+}
+
+fn neg_fam_caps(mp: &str, ap: &str, enh: &str, asn: u32) -> Vec<packet::Capability> {
+    let mut v: Vec<packet::Capability> = neg_list(mp).into_iter().map(packet::Capability::MultiProtocol).collect();
+    if ap != "-" {
+        let e: Vec<(Family, u8)> = ap
+            .split(';')
+            .map(|x| {
+                let (f, m) = x.split_once(':').unwrap();
+                (neg_fam(f), m.parse().unwrap())
+            })
+            .collect();
+        v.push(packet::Capability::AddPath(e));
+    }
+    let e = neg_list(enh);
+    if !e.is_empty() {
+        v.push(packet::Capability::ExtendedNexthop(e.into_iter().map(|f| (f, Family::AFI_IP6)).collect()));
+    }
+    v.push(packet::Capability::Unknown { code: 200, bin: vec![1, 2, 3] });
+    v.push(packet::Capability::FourOctetAsNumber(asn));
+    v
+}
+
+/// One end: the real FSM with `local` capabilities receives an OPEN carrying `remote`.
+fn neg_fsm_side(local: &[packet::Capability], remote: &[packet::Capability], local_asn: u32, remote_asn: u32) -> Option<(bgp::PeerCodec, Vec<Family>)> {
+    let mut send_max: FnvHashMap<Family, usize> = FnvHashMap::default();
+    send_max.insert(Family::IPV4, 4);
+    send_max.insert(Family::IPV4_VPN, 4);
+    let mut fsm = crate::fsm::PeerFsm::new(u32::from(Ipv4Addr::new(1, 0, 0, 1)), local_asn, local.to_vec(), 90, 0, send_max);
+    let role = crate::fsm::Role::Passive;
+    let mut codec = None;
+    let mut eff = None;
+    let inputs = vec![
+        crate::fsm::Input::Connected(false),
+        crate::fsm::Input::MessageReceived(bgp::Message::Open(bgp::Open {
+            as_number: remote_asn,
+            holdtime: HoldTime::new(90).unwrap(),
+            router_id: u32::from(Ipv4Addr::new(10, 9, 9, 9)),
+            capability: remote.to_vec(),
+        })),
+        crate::fsm::Input::MessageReceived(bgp::Message::Keepalive),
+    ];
+    for i in inputs {
+        for o in fsm.process(role, i) {
+            match o {
+                crate::fsm::PeerFsmOutput::Connection(_, crate::fsm::Output::SessionNegotiated(c)) => codec = Some(c),
+                crate::fsm::PeerFsmOutput::Connection(_, crate::fsm::Output::SessionEstablished { effective_max, .. }) => {
+                    eff = Some(effective_max.keys().copied().collect::<Vec<Family>>())
+                }
+                _ => {}
+            }
+        }
+    }
+    Some((codec?, eff?))
+}
+
+fn neg_fam_json(r: Option<(bgp::PeerCodec, Vec<Family>)>) -> String {
+    let Some((mut codec, eff)) = r else {
+        return "{\"noneg\":true}".to_string();
+    };
+    let mut s = String::from("{");
+    for (name, f) in [("ipv4", Family::IPV4), ("ipv4vpn", Family::IPV4_VPN)] {
+        let st = codec.family_state(f);
+        let _ = write!(
+            s,
+            "\"{}\":{{\"on\":{},\"tx\":{},\"rx\":{},\"eff\":{}}},",
+            name,
+            st.is_some(),
+            st.is_some_and(|x| x.addpath_tx),
+            st.is_some_and(|x| x.addpath_rx),
+            eff.contains(&f)
+        );
+    }
+    // IPv4 unicast goes through MP_(UN)REACH iff the extended next hop is in force for it
+    let mut buf = bytes::BytesMut::new();
+    let msg = bgp::Message::Update(bgp::Update::Unreach {
+        family: Family::IPV4,
+        entries: vec![packet::bgp::PathNlri { path_id: 0, nlri: "10.1.1.0/24".parse().unwrap() }],
+    });
+    let via_mp = match codec.encode_to(&msg, &mut buf) {
+        Ok(_) => buf.len() > 21 && buf[19] == 0 && buf[20] == 0,
+        Err(_) => false,
+    };
+    let _ = write!(s, "\"via_mp\":{}}}", via_mp);
+    s
+}
+
+#[tokio::test]
+async fn negotiate_replay() {
+    let Ok(inp) = std::env::var("VERIF_IN") else {
+        return;
+    };
+    if !inp.ends_with(".neg.in") {
+        return;
+    }
+    let outp = std::env::var("VERIF_OUT").expect("VERIF_OUT");
+    let text = std::fs::read_to_string(&inp).expect("read VERIF_IN");
+    let mut out = std::io::BufWriter::new(std::fs::File::create(&outp).expect("create VERIF_OUT"));
+    // one real session object for negotiate_gr / negotiate_llgr
+    let global = mk_global();
+    let tables: TableHandle = Arc::new(TableManager::new(1));
+    let addr = IpAddr::V4(Ipv4Addr::new(127, 0, 0, 1));
+    global.write().await.add_peer(base_params(addr), None).unwrap();
+    let (_client, server) = pair_from(Ipv4Addr::new(127, 0, 0, 1)).await;
+    let mut sess = accept_connection(&global, &tables, server, crate::fsm::Role::Passive).await.expect("accept");
+    let b = |s: &str| s == "1";
+    for line in text.lines() {
+        let t: Vec<&str> = line.split_whitespace().collect();
+        if t.is_empty() {
+            continue;
+        }
+        let res = match t[0] {
+            "fam" => {
+                let l = neg_fam_caps(t[1], t[2], t[3], 65001);
+                let r = neg_fam_caps(t[4], t[5], t[6], 65002);
+                format!(
+                    "{{\"l\":{},\"r\":{}}}",
+                    neg_fam_json(neg_fsm_side(&l, &r, 65001, 65002)),
+                    neg_fam_json(neg_fsm_side(&r, &l, 65002, 65001))
+                )
+            }
+            "scal" => {
+                let caps = |as4: bool, ext: bool, asn: u32| {
+                    let mut v = vec![packet::Capability::MultiProtocol(Family::IPV4)];
+                    if as4 {
+                        v.push(packet::Capability::FourOctetAsNumber(asn));
+                    }
+                    if ext {
+                        v.push(packet::Capability::ExtendedMessage);
+                    }
+                    v
+                };
+                let l = caps(b(t[1]), b(t[2]), 65001);
+                let r = caps(b(t[3]), b(t[4]), 65002);
+                let j = |x: Option<(bgp::PeerCodec, Vec<Family>)>| match x {
+                    None => "{\"noneg\":true}".to_string(),
+                    Some((c, _)) => format!("{{\"as4\":{},\"extmsg\":{}}}", !c.two_byte_as, c.extended_length),
+                };
+                format!("{{\"l\":{},\"r\":{}}}", j(neg_fsm_side(&l, &r, 65001, 65002)), j(neg_fsm_side(&r, &l, 65002, 65001)))
+            }
+            "gr" => {
+                let caps = |on: bool, n: bool, time: u16, fams: &str| {
+                    let mut v = vec![packet::Capability::MultiProtocol(Family::IPV4)];
+                    if on {
+                        v.push(packet::Capability::GracefulRestart {
+                            flags: if n { 0x4 } else { 0 },
+                            restart_time: time,
+                            families: neg_list(fams).into_iter().map(|f| (f, 0)).collect(),
+                        });
+                    }
+                    v
+                };
+                let l = caps(b(t[1]), b(t[2]), t[3].parse().unwrap(), t[4]);
+                let r = caps(b(t[5]), b(t[6]), t[7].parse().unwrap(), t[8]);
+                let mut side = |me: &Vec<packet::Capability>, peer: &Vec<packet::Capability>| {
+                    sess.local_cap = me.clone();
+                    match sess.negotiate_gr(peer) {
+                        None => "{\"on\":false,\"n\":false,\"time\":0,\"fams\":[]}".to_string(),
+                        Some(g) => {
+                            let mut f: Vec<String> = g.families.iter().map(|f| format!("\"{}\"", if *f == Family::IPV4 { "ipv4" } else { "ipv4vpn" })).collect();
+                            f.sort();
+                            format!("{{\"on\":true,\"n\":{},\"time\":{},\"fams\":[{}]}}", g.notification_enabled, g.restart_time.as_secs(), f.join(","))
+                        }
+                    }
+                };
+                let a = side(&l, &r);
+                let c = side(&r, &l);
+                format!("{{\"l\":{},\"r\":{}}}", a, c)
+            }
+            "llgr" => {
+                let caps = |on: bool, t4: u32, tv: u32| {
+                    let mut v = vec![packet::Capability::MultiProtocol(Family::IPV4)];
+                    if on {
+                        let mut e = Vec::new();
+                        if t4 != 99999 {
+                            e.push((Family::IPV4, 0u8, t4));
+                        }
+                        if tv != 99999 {
+                            e.push((Family::IPV4_VPN, 0u8, tv));
+                        }
+                        v.push(packet::Capability::LongLivedGracefulRestart(e));
+                    }
+                    v
+                };
+                let l = caps(b(t[1]), t[2].parse().unwrap(), t[3].parse().unwrap());
+                let r = caps(b(t[4]), t[5].parse().unwrap(), t[6].parse().unwrap());
+                let mut side = |me: &Vec<packet::Capability>, peer: &Vec<packet::Capability>| {
+                    sess.local_cap = me.clone();
+                    let g = sess.negotiate_llgr(peer);
+                    let get = |f: Family| g.as_ref().and_then(|g| g.families.iter().find(|(x, _)| *x == f).map(|(_, d)| d.as_secs())).unwrap_or(0);
+                    format!("{{\"ipv4\":{},\"ipv4vpn\":{}}}", get(Family::IPV4), get(Family::IPV4_VPN))
+                };
+                let a = side(&l, &r);
+                let c = side(&r, &l);
+                format!("{{\"l\":{},\"r\":{}}}", a, c)
+            }
+            x => panic!("harness: kind {x}"),
+        };
+        writeln!(out, "{}", res).unwrap();
+    }
+    out.flush().unwrap();
+}
+
+// ------------------------------------------------------------------------------------------------
+// C16 (admission half): behaviours of spec/Admission/Admission.tla on the real Global + accept_connection +
+// PeerSession::run + the gRPC handlers (reset / disable / enable / delete), single-threaded runtime: the harness
+// never yields between a call that signals a session to close and the following model step, so the session's
+// tail runs exactly at the model's `end` step.
+//
+// Input (VERIF_IN, must end ".adm.in"): `walk` starts a fresh world, then one op per line:
+//   connect <a> <A|P> <q> | reset|disable|enable|delete|add <a> - <q> | rclose|end <id> - <q>
+// (q = number of session tails pending after the step in the model: the harness yields only when q = 0)
+// with a in {s, d, u}: s = 127.0.1.1, d = 127.0.2.1 (inside the dynamic prefix 127.0.2.0/24), u = 127.0.3.1.
+
+fn adm_addr(a: &str) -> Ipv4Addr {
+    match a {
+        "s" => Ipv4Addr::new(127, 0, 1, 1),
+        "d" => Ipv4Addr::new(127, 0, 2, 1),
+        "u" => Ipv4Addr::new(127, 0, 3, 1),
+        x => panic!("harness: addr {x}"),
+    }
+}
+
+/// (daemon side, remote side) with the daemon side's peer address = `a`, for the given direction.
+async fn adm_pair(a: Ipv4Addr, dir: &str) -> (TcpStream, TcpStream) {
+    if dir == "P" {
+        let (client, server) = pair_from(a).await;
+        (server, client)
+    } else {
+        let listener = tokio::net::TcpListener::bind((a, 0)).await.unwrap();
+        let la = listener.local_addr().unwrap();
+        let daemon = TcpStream::connect(la).await.unwrap();
+        let (remote, _) = listener.accept().await.unwrap();
+        (daemon, remote)
+    }
+}
+
+struct AdmSess {
+    handle: Option<tokio::task::JoinHandle<()>>,
+    remote: Option<TcpStream>,
+}
+
+async fn adm_project(global: &GlobalHandle, nsess: usize) -> String {
+    let g = global.read().await;
+    let mut s = String::from("{\"peers\":[");
+    let mut first = true;
+    for a in ["d", "s", "u"] {
+        if let Some(p) = g.peers.get(&IpAddr::V4(adm_addr(a))) {
+            let ctx = p.context.lock().unwrap();
+            let arb = ctx.conn_arbiter.lock().unwrap();
+            if !first {
+                s.push(',');
+            }
+            first = false;
+            let _ = write!(
+                s,
+                "{{\"a\":\"{}\",\"dyn\":{},\"down\":{},\"A\":{},\"P\":{}}}",
+                a,
+                p.config.delete_on_disconnected,
+                p.admin_down,
+                arb.has_connection(crate::fsm::Role::Active),
+                arb.has_connection(crate::fsm::Role::Passive)
+            );
+        }
+    }
+    let _ = write!(s, "],\"nsess\":{}}}", nsess);
+    s
+}
+
+#[tokio::test]
+async fn admission_replay() {
+    let Ok(inp) = std::env::var("VERIF_IN") else {
+        return;
+    };
+    if !inp.ends_with(".adm.in") {
+        return;
+    }
+    let outp = std::env::var("VERIF_OUT").expect("VERIF_OUT");
+    let text = std::fs::read_to_string(&inp).expect("read VERIF_IN");
+    let mut out = std::io::BufWriter::new(std::fs::File::create(&outp).expect("create VERIF_OUT"));
+    let lines: Vec<&str> = text.lines().collect();
+    let mut i = 0;
+    while i < lines.len() {
+        if lines[i].trim() != "walk" {
+            i += 1;
+            continue;
+        }
+        let mut j = i + 1;
+        while j < lines.len() && lines[j].trim() != "walk" {
+            j += 1;
+        }
+        let ops: Vec<Vec<&str>> = lines[i + 1..j].iter().map(|l| l.split_whitespace().collect::<Vec<&str>>()).filter(|t| !t.is_empty()).collect();
+        i = j;
+        writeln!(out, "{{\"walk\":true}}").unwrap();
+        // fresh world
+        let global = mk_global();
+        let tables: TableHandle = Arc::new(TableManager::new(1));
+        {
+            let mut g = global.write().await;
+            g.peer_group.insert(
+                "dyn".to_string(),
+                PeerGroup {
+                    as_number: 65002,
+                    dynamic_peers: vec![DynamicPeer { prefix: packet::IpNet::new(IpAddr::V4(Ipv4Addr::new(127, 0, 2, 0)), 24) }],
+                    route_server_client: false,
+                    holdtime: Some(90),
+                    local_asn: 0,
+                    passive: true,
+                    route_reflector: RouteReflectorConfig::default(),
+                    multihop_ttl: None,
+                    ttl_security: None,
+                    auth_password: None,
+                    connect_retry_time: Some(3600),
+                    families: FnvHashMap::default(),
+                    send_max: FnvHashMap::default(),
+                    graceful_restart: None,
+                    llgr: None,
+                },
+            );
+        }
+        let (atx, _arx) = mpsc::unbounded_channel();
+        let svc = GrpcService::new(Arc::new(Notify::new()), atx.clone(), global.clone(), tables.clone());
+        // all sockets are created up front: creating one later would yield to the runtime
+        let mut pool: Vec<Option<(TcpStream, TcpStream)>> = Vec::new();
+        for t in &ops {
+            if t[0] == "connect" {
+                pool.push(Some(adm_pair(adm_addr(t[1]), t[2]).await));
+            } else {
+                pool.push(None);
+            }
+        }
+        let mut sess: Vec<AdmSess> = Vec::new();
+        for (k, t) in ops.iter().enumerate() {
+            let res: String = match t[0] {
+                "connect" => {
+                    let (daemon, remote) = pool[k].take().unwrap();
+                    let role = if t[2] == "A" { crate::fsm::Role::Active } else { crate::fsm::Role::Passive };
+                    match accept_connection(&global, &tables, daemon, role).await {
+                        Some(ps) => {
+                            let g2 = global.clone();
+                            let a2 = atx.clone();
+                            let handle = tokio::spawn(async move { ps.run(g2, a2).await });
+                            sess.push(AdmSess { handle: Some(handle), remote: Some(remote) });
+                            "accepted".into()
+                        }
+                        None => "rejected".into(),
+                    }
+                }
+                "add" => {
+                    let mut p = base_params(IpAddr::V4(adm_addr(t[1])));
+                    p.expected_remote_asn = 65002;
+                    match global.write().await.add_peer(p, None) {
+                        Ok(()) => "ok".into(),
+                        Err(_) => "err".into(),
+                    }
+                }
+                "reset" => {
+                    let r = svc
+                        .reset_peer(tonic::Request::new(api::ResetPeerRequest { address: adm_addr(t[1]).to_string(), soft: false, ..Default::default() }))
+                        .await;
+                    if r.is_ok() { "ok".into() } else { "err".into() }
+                }
+                "disable" => {
+                    let r = svc.disable_peer(tonic::Request::new(api::DisablePeerRequest { address: adm_addr(t[1]).to_string(), ..Default::default() })).await;
+                    if r.is_ok() { "ok".into() } else { "err".into() }
+                }
+                "enable" => {
+                    let r = svc.enable_peer(tonic::Request::new(api::EnablePeerRequest { address: adm_addr(t[1]).to_string() })).await;
+                    if r.is_ok() { "ok".into() } else { "err".into() }
+                }
+                "delete" => {
+                    let r = svc.delete_peer(tonic::Request::new(api::DeletePeerRequest { address: adm_addr(t[1]).to_string(), ..Default::default() })).await;
+                    if r.is_ok() { "ok".into() } else { "err".into() }
+                }
+                "rclose" => {
+                    let id: usize = t[1].parse().unwrap();
+                    sess[id - 1].remote = None; // drops the remote socket
+                    "ok".into()
+                }
+                "end" => {
+                    let id: usize = t[1].parse().unwrap();
+                    sess[id - 1].remote = None;
+                    let h = sess[id - 1].handle.take().unwrap();
+                    match tokio::time::timeout(Duration::from_millis(WAIT_MS), h).await {
+                        Ok(Ok(())) => "ok".into(),
+                        Ok(Err(_)) => "panic".into(),
+                        Err(_) => "stuck".into(),
+                    }
+                }
+                x => panic!("harness: op {x}"),
+            };
+            // let freshly accepted sessions start, unless a session tail is pending (it must run at its `end` step)
+            if t[3] == "0" {
+                settle().await;
+            }
+            let st = adm_project(&global, sess.len()).await;
+            writeln!(out, "{{\"res\":\"{}\",\"state\":{}}}", res, st).unwrap();
+        }
+        for s in &mut sess {
+            if let Some(h) = s.handle.take() {
+                h.abort();
+                let _ = h.await;
+            }
+        }
+    }
+    out.flush().unwrap();
+}
+
+// ------------------------------------------------------------------------------------------------
+// C16 (session set-up): cases of spec/Admission/Params.tla.  Input (VERIF_IN ends ".par.in"):
+//   par <static|dynamic> <remote_as> <rs> <rr> <cluster> <confed> <hold>
+#[tokio::test]
+async fn params_replay() {
+    let Ok(inp) = std::env::var("VERIF_IN") else {
+        return;
+    };
+    if !inp.ends_with(".par.in") {
+        return;
+    }
+    let outp = std::env::var("VERIF_OUT").expect("VERIF_OUT");
+    let text = std::fs::read_to_string(&inp).expect("read VERIF_IN");
+    let mut out = std::io::BufWriter::new(std::fs::File::create(&outp).expect("create VERIF_OUT"));
+    let b = |s: &str| s == "1";
+    for line in text.lines() {
+        let t: Vec<&str> = line.split_whitespace().collect();
+        if t.is_empty() || t[0] != "par" {
+            continue;
+        }
+        let (dynamic, remote_as, rs, rr, cluster, confed, hold): (bool, u32, bool, bool, bool, bool, u64) =
+            (t[1] == "dynamic", t[2].parse().unwrap(), b(t[3]), b(t[4]), b(t[5]), b(t[6]), t[7].parse().unwrap());
+        let global = mk_global();
+        let tables: TableHandle = Arc::new(TableManager::new(1));
+        let src = if dynamic { Ipv4Addr::new(127, 0, 2, 7) } else { Ipv4Addr::new(127, 0, 1, 1) };
+        let rrc = RouteReflectorConfig {
+            route_reflector_client: rr,
+            route_reflector_cluster_id: if cluster { Some(Ipv4Addr::new(9, 9, 9, 9)) } else { None },
+        };
+        {
+            let mut g = global.write().await;
+            if confed {
+                g.confederation = Some(ConfederationConfig { id: 64512, members: [65001u32, 65002u32].into_iter().collect() });
+            }
+            if dynamic {
+                g.peer_group.insert(
+                    "dyn".to_string(),
+                    PeerGroup {
+                        as_number: remote_as,
+                        dynamic_peers: vec![DynamicPeer { prefix: packet::IpNet::new(IpAddr::V4(Ipv4Addr::new(127, 0, 2, 0)), 24) }],
+                        route_server_client: rs,
+                        holdtime: if hold == 0 { None } else { Some(hold) },
+                        local_asn: 0,
+                        passive: true,
+                        route_reflector: rrc.clone(),
+                        multihop_ttl: None,
+                        ttl_security: None,
+                        auth_password: None,
+                        connect_retry_time: None,
+                        families: FnvHashMap::default(),
+                        send_max: FnvHashMap::default(),
+                        graceful_restart: None,
+                        llgr: None,
+                    },
+                );
+            } else {
+                let mut p = base_params(IpAddr::V4(src));
+                p.expected_remote_asn = remote_as;
+                p.rs_client = rs;
+                p.route_reflector = rrc.clone();
+                p.holdtime = if hold == 0 { PeerParams::DEFAULT_HOLD_TIME } else { hold };
+                p.prefix_limits.insert(Family::IPV4, 10);
+                g.add_peer(p, None).unwrap();
+            }
+        }
+        let (_client, server) = pair_from(src).await;
+        let Some(sess) = accept_connection(&global, &tables, server, crate::fsm::Role::Passive).await else {
+            writeln!(out, "{{\"accepted\":false}}").unwrap();
+            continue;
+        };
+        let role = match sess.export_ctx.role {
+            PeerRole::Ebgp => "Ebgp",
+            PeerRole::Ibgp => "Ibgp",
+            PeerRole::IbgpRrClient => "IbgpRrClient",
+            PeerRole::RsClient => "RsClient",
+            PeerRole::ConfedEbgp => "ConfedEbgp",
+        };
+        let mut open_as = 0u32;
+        let mut open_hold = 0u64;
+        let mut cap_as = 0u32;
+        for o in sess.conn_arbiter.lock().unwrap().process(sess.role, crate::fsm::Input::Connected(false)) {
+            if let crate::fsm::PeerFsmOutput::Connection(_, crate::fsm::Output::SendMessage(bgp::Message::Open(op))) = o {
+                open_as = op.as_number;
+                open_hold = op.holdtime.seconds() as u64;
+                for c in &op.capability {
+                    if let packet::Capability::FourOctetAsNumber(a) = c {
+                        cap_as = *a;
+                    }
+                }
+            }
+        }
+        let limit = sess.prefix_counters.get(&Family::IPV4).map(|(m, _)| *m).unwrap_or(0);
+        let cluster = sess.cluster_id.map(|c| c.to_string()).unwrap_or_else(|| "none".to_string());
+        writeln!(
+            out,
+            "{{\"accepted\":true,\"role\":\"{}\",\"openAs\":{},\"capAs\":{},\"ctxAs\":{},\"hold\":{},\"cluster\":\"{}\",\"limit\":{},\"confedId\":{}}}",
+            role, open_as, cap_as, sess.export_ctx.local_asn, open_hold, cluster, limit, sess.export_ctx.confederation_id
+        )
+        .unwrap();
+    }
+    out.flush().unwrap();
+}
